@@ -381,7 +381,13 @@ class HTMLSanitizer(object):
 
                 new_attrs = []
                 for attr, value in attrs:
-                    value = stripentities(value)
+                    # Decode references until none is left: what is checked
+                    # and emitted must not decode to something else when the
+                    # output is parsed (and decoded) again
+                    decoded = stripentities(value)
+                    while decoded != value:
+                        value = decoded
+                        decoded = stripentities(value)
                     if attr not in self.safe_attrs:
                         continue
                     elif attr in self.uri_attrs:
